@@ -437,6 +437,16 @@ static void vf_check_line(int lineno)
 #endif
 }
 
+#ifdef VF_LESS3
+/* yyless() from section 3 code */
+#if defined(VF_API_NR)
+static void vf_less3(int k) { yyless(k); }
+#elif defined(VF_API_R)
+static void vf_less3(int k, void *yyscanner) { struct yyguts_t *yyg = (struct yyguts_t *)yyscanner; (void)yyg; yyless(k); }
+#else
+static void vf_less3(int k, void *yyscanner) { yyless(k, (yyscan_t)yyscanner); }
+#endif
+#endif
 static void vf_did_less(int n, const char *text, long leng, int lineno)
 {
 	vf_ref_less(&vf_R, n);
@@ -586,6 +596,18 @@ public:
 	virtual int LexerInput(char *b, int m) { return vf_read(b, (size_t)m); }
 	virtual void LexerOutput(const char *, int) { }
 	virtual void LexerError(const char *m) { vf_fatal(m); }
+	/* the storage of a lexer object is whatever the heap or the stack held before: every execution gets it filled with another
+	 * byte, so a member the constructor forgets (round-7 seed C13-r7m3) shows up as behaviour that differs from the reference */
+	static void *operator new(size_t n)
+	{
+		static const unsigned char fill[] = {0xA5, 0xFF, 0x01, 0x00, 0x7F, 0x80};
+		static unsigned k;
+		void *p = malloc(n);
+		if (!p) vf_hard_error("malloc failed in the driver");
+		memset(p, fill[k++ % sizeof fill], n);
+		return p;
+	}
+	static void operator delete(void *p) { free(p); }
 };
 static VfLexer *vf_lexer;
 #define VF_LEX() vf_lexer->yylex()
